@@ -268,6 +268,7 @@ type c05Item struct {
 	Lit    *c05Lit
 	Expr   *c05Expr
 	Alias  string
+	BQ     bool // the alias is written as a back-quoted name (the quotes are not part of the column's name)
 	Out    string
 	Pinned bool
 	Tag    string
@@ -285,7 +286,9 @@ func (it *c05Item) SQL(as string) string {
 	default:
 		s = it.Expr.SQL()
 	}
-	if it.Alias != "" {
+	if it.Alias != "" && it.BQ {
+		s += " " + as + " `" + it.Alias + "`"
+	} else if it.Alias != "" {
 		s += " " + as + " " + it.Alias
 	}
 	return s
@@ -608,6 +611,7 @@ func c05GenStmt(r *rand.Rand, loose bool) *c05Stmt {
 			it.Out = it.Alias
 		}
 		used[it.Out] = true
+		it.BQ = it.Alias != "" && r.Intn(10) == 0
 		st.Items = append(st.Items, it)
 	}
 	if !st.Star {
